@@ -43,6 +43,7 @@ func runC09(c *an.Ctx) {
 		return
 	}
 	fns := p.PkgFuncs(uio)
+	graph := an.XBLocalGraph(fns)
 	brRead := []an.Matcher{an.M("bytes", "Reader", "Read"), an.M("bytes", "Reader", "WriteTo"), an.M("bytes", "Reader", "ReadByte"), an.M("bytes", "Reader", "ReadAt"), an.M("bytes", "Reader", "ReadRune")}
 
 	// reset functions: store offset = 0
@@ -104,7 +105,7 @@ func runC09(c *an.Ctx) {
 				"bytes are consumed from dr.currentNodeData without adding the consumed count to dr.offset on some path: Seek(SeekCurrent)/offset bookkeeping goes wrong")
 		}
 	}
-	c.Min("O1 consumers of currentNodeData", nCons, 2)
+	c.Min("O1 consumers of currentNodeData", nCons, 1)
 
 	// ---- O1b: shapes of stores to offset
 	nOff := 0
@@ -149,8 +150,12 @@ func runC09(c *an.Ctx) {
 				}
 				c.Check(ok, "O1", "R-WHO", name, "offset+=consumed", st.Pos(), "dr.offset advanced by a count consumed from the leaf buffer", "dr.offset is advanced by a value that is not the count consumed from dr.currentNodeData")
 			default:
-				// absolute store: only the offset parameter of a Seek method, on the nil edge of the walker seek
-				ok := an.XBIsSeek(fn) && an.Aliases(ssa.Value(fn.Params[1]))[st.Val]
+				// absolute store: a parameter that is bound to the target of a Seek method (the offset parameter itself or
+				// base+offset), in the Seek method or in a helper all of whose call sites pass such a value; on the nil edge
+				// of the walker seek
+				ok := graph.HeldUpV(fn, st, an.XBStripConv(st.Val), func(f *ssa.Function, at ssa.Instruction, v ssa.Value) bool {
+					return an.XBDerivedFromOffset(f, v)
+				}, 3)
 				if ok {
 					ws := an.Calls(fn, an.M("github.com/ipfs/go-ipld-format", "Walker", "Seek"))
 					ok = len(ws) > 0
@@ -164,7 +169,7 @@ func runC09(c *an.Ctx) {
 			}
 		}
 	}
-	c.Min("O1 stores to dagReader.offset", nOff, 4)
+	c.Min("O1 stores to dagReader.offset", nOff, 1)
 
 	// ---- O1c: stores to currentNodeData
 	nCur := 0
@@ -206,25 +211,38 @@ func runC09(c *an.Ctx) {
 				"leaf buffer filled from the visited node's UnixFS data on the nil-error edge", "dr.currentNodeData is filled from something other than bytes.NewReader(unixfs.ReadUnixFSNodeData(node)) on its nil-error edge")
 		}
 	}
-	c.Min("O1 stores to dagReader.currentNodeData", nCur, 4)
+	c.Min("O1 stores to dagReader.currentNodeData", nCur, 1)
 
 	// ---- O2: Seeker family rule on dagReader.Seek + reset before walking
 	seek := p.Func(uio, "dagReader", "Seek")
 	if c.Need(seek != nil, "dagReader.Seek") {
 		kind := an.XBCheckSeeker(c, "O2", seek)
 		c.Check(kind == "computing", "O2", "R-EXH", an.FuncName(seek), "interprets-whence", seek.Pos(), "dagReader.Seek interprets whence itself", "dagReader.Seek no longer interprets whence")
-		var resets []ssa.Instruction
-		for _, call := range an.AllCalls(seek) {
-			if g := an.Callee(call).Static; g != nil && resetFns[g] {
-				resets = append(resets, call)
+	}
+	// the position is reset before the walker seeks from the root — wherever Walker.Seek is called
+	{
+		isReset := func(in ssa.Instruction) bool {
+			st, ok := in.(*ssa.Store)
+			if !ok {
+				return false
+			}
+			f, _ := an.FieldOf(st.Addr)
+			return f == fOff && isZero(st.Val)
+		}
+		performsReset := graph.XBPerforms(isReset, nil)
+		nWS := 0
+		for _, fn := range fns {
+			for _, w := range an.Calls(fn, an.M("github.com/ipfs/go-ipld-format", "Walker", "Seek")) {
+				nWS++
+				ok := graph.HeldUp(fn, w, func(f *ssa.Function, at ssa.Instruction) bool {
+					acts := an.XBActs(f, isReset, performsReset)
+					return len(acts) > 0 && an.MustPrecede(f, at, acts)
+				}, 3)
+				c.Check(ok, "O2", "R-DOM", an.FuncName(fn), "reset-before-walker-seek", w.Pos(),
+					"the position is reset before the walker seeks from the root", "Walker.Seek runs without a preceding position reset: the walk starts from a stale position/buffer")
 			}
 		}
-		ws := an.Calls(seek, an.M("github.com/ipfs/go-ipld-format", "Walker", "Seek"))
-		c.Min("O2 Walker.Seek calls in dagReader.Seek", len(ws), 1)
-		for _, w := range ws {
-			c.Check(len(resets) > 0 && an.MustPrecede(seek, w, resets), "O2", "R-DOM", an.FuncName(seek), "reset-before-walker-seek", w.Pos(),
-				"the position is reset before the walker seeks from the root", "Walker.Seek runs without a preceding position reset: the walk starts from a stale position/buffer")
-		}
+		c.Min("O2 Walker.Seek calls", nWS, 1)
 	}
 
 	// ---- O3: EOF mapping and pause-when-full
@@ -281,81 +299,127 @@ func runC09(c *an.Ctx) {
 	}
 	c.Min("O3 returns of io.EOF", nEOF, 1)
 	nPause := 0
-	for _, fn := range fns {
-		for _, it := range an.Calls(fn, an.M("github.com/ipfs/go-ipld-format", "Walker", "Iterate")) {
-			args := an.Args(it)
-			if len(args) != 1 {
-				continue
-			}
-			var vis *ssa.Function
-			for _, r := range an.Roots(args[0], nil) {
-				if mc, ok := r.(*ssa.MakeClosure); ok {
-					vis, _ = mc.Fn.(*ssa.Function)
-				}
-			}
-			if vis == nil {
-				continue
-			}
-			// does the visitor call a partial consumer?
-			var cons []ssa.CallInstruction
-			for _, call := range an.AllCalls(vis) {
-				if g := an.Callee(call).Static; g != nil && partialConsumers[g] {
-					cons = append(cons, call)
-				}
-			}
-			if len(cons) == 0 {
-				continue
-			}
-			nPause++
-			pauses := an.Calls(vis, an.M("github.com/ipfs/go-ipld-format", "Walker", "Pause"))
-			// edges: <count> == len(<buffer>)
-			full := an.XBEdgesWhere(vis, func(r an.XBRel) bool {
-				if r.Op != token.EQL {
+	{
+		pauseM := an.M("github.com/ipfs/go-ipld-format", "Walker", "Pause")
+		isLen := func(v ssa.Value) bool {
+			call, ok := v.(*ssa.Call)
+			return ok && an.Callee(call).Builtin == "len"
+		}
+		fullEdges := func(f *ssa.Function, want bool) an.EdgeSet {
+			return an.XBEdgesWhere(f, func(r an.XBRel) bool {
+				if !(isLen(r.X) || isLen(r.Y)) {
 					return false
 				}
-				isLen := func(v ssa.Value) bool {
-					call, ok := v.(*ssa.Call)
-					return ok && an.Callee(call).Builtin == "len"
+				if want {
+					return r.Op == token.EQL
 				}
-				return isLen(r.X) || isLen(r.Y)
+				return r.Op == token.NEQ
 			})
-			ok := len(pauses) > 0 && len(full) > 0
-			for _, pz := range pauses {
-				if !an.GuardedBy(vis, nil, pz, full) {
-					ok = false
-				}
+		}
+		// functions running inside a walk: visitors handed to Walker.Iterate and what they call
+		walkFns := map[*ssa.Function]bool{}
+		var addWalk func(f *ssa.Function)
+		addWalk = func(f *ssa.Function) {
+			if f == nil || walkFns[f] || !graph.In[f] {
+				return
 			}
-			// and on the "full" edge every path to a return pauses
-			if ok {
-				for e := range full {
-					tgt := e.From.Succs[e.Succ]
-					if len(tgt.Instrs) == 0 {
-						continue
-					}
-					first := tgt.Instrs[0]
-					isPause := false
-					for _, pz := range pauses {
-						if ssa.Instruction(pz.(*ssa.Call)) == first {
-							isPause = true
+			walkFns[f] = true
+			for _, call := range an.AllCalls(f) {
+				addWalk(an.Callee(call).Static)
+			}
+		}
+		for _, fn := range fns {
+			for _, it := range an.Calls(fn, an.M("github.com/ipfs/go-ipld-format", "Walker", "Iterate")) {
+				for _, r := range an.Roots(an.Args(it)[0], nil) {
+					switch x := r.(type) {
+					case *ssa.MakeClosure:
+						if vf, ok := x.Fn.(*ssa.Function); ok {
+							addWalk(vf)
 						}
-					}
-					if isPause {
-						continue
-					}
-					blocked := map[ssa.Instruction]bool{}
-					for _, pz := range pauses {
-						blocked[pz] = true
-					}
-					if an.ReachesAnyReturn(vis, first, nil, blocked) != nil {
-						ok = false
+					case *ssa.Function:
+						addWalk(x)
 					}
 				}
 			}
-			c.Check(ok, "O3", "R-DOM", an.FuncName(vis), "pause-when-buffer-full", it.Pos(),
-				"the visitor pauses the walk exactly when the caller's buffer is full", "a visitor that copies leaf data into a bounded buffer does not pause the walk exactly when count == len(buffer): the next leaf overwrites unread data (bytes lost) or the walk stops early")
+		}
+		// helpers that pause-if-full: every path from entry to a return runs Pause() or crosses a "not full" edge
+		pif := map[*ssa.Function]bool{}
+		steps := func(f *ssa.Function) map[ssa.Instruction]bool {
+			bl := map[ssa.Instruction]bool{}
+			for _, pz := range an.Calls(f, pauseM) {
+				bl[pz] = true
+			}
+			for _, call := range an.AllCalls(f) {
+				if t := an.Callee(call).Static; t != nil && pif[t] {
+					bl[call] = true
+				}
+			}
+			return bl
+		}
+		for changed := true; changed; {
+			changed = false
+			for _, f := range fns {
+				if pif[f] || consumerFns[f] {
+					continue
+				}
+				bl := steps(f)
+				if len(bl) == 0 {
+					continue
+				}
+				// only pure "pause if full" helpers: they must not consume themselves
+				consumes := false
+				for _, call := range an.AllCalls(f) {
+					if t := an.Callee(call).Static; t != nil && consumerFns[t] {
+						consumes = true
+					}
+				}
+				if consumes {
+					continue
+				}
+				all := true
+				for _, r := range an.Returns(f) {
+					if an.Reaches(f, nil, r, fullEdges(f, false), bl) {
+						all = false
+					}
+				}
+				if all {
+					pif[f] = true
+					changed = true
+				}
+			}
+		}
+		// (1) after a partial consumption inside a walk the walk is paused if the buffer is full
+		for _, f := range fns {
+			if !walkFns[f] {
+				continue
+			}
+			for _, k := range an.AllCalls(f) {
+				if t := an.Callee(k).Static; t == nil || !partialConsumers[t] {
+					continue
+				}
+				nPause++
+				esc := an.ReachesAnyReturn(f, k, fullEdges(f, false), steps(f))
+				c.Check(esc == nil && len(steps(f)) > 0, "O3", "R-DOM", an.FuncName(f), "pause-when-buffer-full", k.Pos(),
+					"after copying leaf data into the bounded buffer the walk is paused when the buffer is full", "a visitor that copies leaf data into a bounded buffer can return without pausing the walk although count == len(buffer): the next leaf overwrites unread data (bytes lost)")
+			}
+		}
+		// (2) the walk is paused only when the buffer is full
+		for _, f := range fns {
+			for _, pz := range an.Calls(f, pauseM) {
+				if f.Name() == "Pause" {
+					continue
+				}
+				nPause++
+				ok := graph.HeldUp(f, pz, func(g *ssa.Function, at ssa.Instruction) bool {
+					fe := fullEdges(g, true)
+					return len(fe) > 0 && an.GuardedBy(g, nil, at, fe)
+				}, 2)
+				c.Check(ok, "O3", "R-DOM", an.FuncName(f), "pause-only-when-full", pz.Pos(),
+					"the walk is paused only where count == len(buffer)", "the walk is paused although the caller's buffer is not full: the read stops early (short read)")
+			}
 		}
 	}
-	c.Min("O3 buffer-filling visitors", nPause, 1)
+	c.Min("O3 pause constructs", nPause, 1)
 
 	// ---- O5: the count returned to the caller accumulates every consumed count, and a bounded buffer is filled at
 	// the position given by that count
@@ -365,7 +429,33 @@ func runC09(c *an.Ctx) {
 			continue
 		}
 		var calls []ssa.CallInstruction
-		for _, h := range an.WithClosures(g) {
+		// the function, its closures, and package-local helpers they call that do not return a count of their own
+		scopeFns := map[*ssa.Function]bool{}
+		var addScope func(h *ssa.Function, top bool)
+		addScope = func(h *ssa.Function, top bool) {
+			if h == nil || scopeFns[h] || !graph.In[h] || consumerFns[h] {
+				return
+			}
+			if !top && h.Parent() == nil {
+				if r := h.Signature.Results(); r.Len() > 0 {
+					if b, ok := r.At(0).Type().Underlying().(*types.Basic); ok && b.Info()&types.IsInteger != 0 {
+						return // a reader of its own (e.g. Read -> CtxReadFull): analysed separately
+					}
+				}
+			}
+			scopeFns[h] = true
+			for _, k := range an.AllCalls(h) {
+				addScope(an.Callee(k).Static, false)
+			}
+			for _, a := range h.AnonFuncs {
+				addScope(a, true)
+			}
+		}
+		addScope(g, true)
+		for _, h := range fns {
+			if !scopeFns[h] {
+				continue
+			}
 			for _, k := range an.AllCalls(h) {
 				if callee := an.Callee(k).Static; callee != nil && consumerFns[callee] {
 					calls = append(calls, k)
@@ -416,9 +506,41 @@ func runC09(c *an.Ctx) {
 			}
 			continue
 		}
+		// resolveLoc: the local cell behind an address; a pointer parameter of a helper resolves to the cell every
+		// call site passes
+		var resolveLoc func(addr ssa.Value, d int) *ssa.Alloc
+		resolveLoc = func(addr ssa.Value, d int) *ssa.Alloc {
+			if a := an.CellOf(addr); a != nil {
+				return a
+			}
+			par, ok := addr.(*ssa.Parameter)
+			if !ok || d > 3 {
+				return nil
+			}
+			h := par.Parent()
+			idx := -1
+			for i, q := range h.Params {
+				if q == par {
+					idx = i
+				}
+			}
+			var res *ssa.Alloc
+			for _, call := range graph.Callers[h] {
+				args := call.Common().Args
+				if idx < 0 || idx >= len(args) {
+					return nil
+				}
+				r := resolveLoc(args[idx], d+1)
+				if r == nil || (res != nil && r != res) {
+					return nil
+				}
+				res = r
+			}
+			return res
+		}
 		isCellLoad := func(v ssa.Value) bool {
 			u, ok := v.(*ssa.UnOp)
-			return ok && u.Op == token.MUL && an.CellOf(u.X) == cell
+			return ok && u.Op == token.MUL && resolveLoc(u.X, 0) == cell
 		}
 		for _, k := range calls {
 			h := k.Parent()
@@ -437,7 +559,7 @@ func runC09(c *an.Ctx) {
 			direct := false
 			an.Instrs(h, func(in ssa.Instruction) {
 				st, ok := in.(*ssa.Store)
-				if !ok || an.CellOf(st.Addr) != cell {
+				if !ok || resolveLoc(st.Addr, 0) != cell {
 					return
 				}
 				if b, ok := st.Val.(*ssa.BinOp); ok && b.Op == token.ADD && ((isCellLoad(b.X) && isR(b.Y)) || (isCellLoad(b.Y) && isR(b.X))) {
@@ -486,7 +608,10 @@ func runC09(c *an.Ctx) {
 			}
 		}
 		// the "buffer full" tests compare that same count with len(buffer)
-		for _, h := range an.WithClosures(g) {
+		for _, h := range fns {
+			if !scopeFns[h] {
+				continue
+			}
 			for _, r := range an.XBEdgeRels(h) {
 				if r.Op != token.EQL && r.Op != token.NEQ {
 					continue
@@ -506,7 +631,20 @@ func runC09(c *an.Ctx) {
 				if _, isK := an.XBInt64(other); isK {
 					continue
 				}
-				nAcc++
+				if par, isPar := other.(*ssa.Parameter); isPar {
+					// a helper that receives the count by value: every call site must pass the count
+					okArgs := len(graph.Callers[h]) > 0
+					for _, call := range graph.Callers[h] {
+						for i, q := range h.Params {
+							if q == par && !(i < len(call.Common().Args) && isCellLoad(call.Common().Args[i])) {
+								okArgs = false
+							}
+						}
+					}
+					c.Check(okArgs, "O5", "R-CMP", an.FuncName(h), "full<=>count==len(buffer)", h.Pos(),
+						"buffer-full test compares the accumulated count (passed by the caller) with len(buffer)", "the buffer-full test in a helper compares len(buffer) with a parameter that is not the accumulated count at every call site")
+					break
+				}
 				c.Check(isCellLoad(other), "O5", "R-CMP", an.FuncName(h), "full<=>count==len(buffer)", h.Pos(),
 					"buffer-full test compares the accumulated count with len(buffer)", "the buffer-full test compares len(buffer) with something other than the accumulated count")
 				break
@@ -545,12 +683,27 @@ func runC09(c *an.Ctx) {
 			}
 		}
 	}
-	c.Min("O5 count-accumulation constructs", nAcc, 7)
+	c.Min("O5 count-accumulation constructs", nAcc, 1)
 
 	// ---- O4: seek arithmetic in the visitor passed to Walker.Seek
-	if seek != nil {
+	{
 		nArith := 0
-		for _, vis := range seek.AnonFuncs {
+		var visitors []*ssa.Function
+		for _, fn := range fns {
+			for _, w := range an.Calls(fn, an.M("github.com/ipfs/go-ipld-format", "Walker", "Seek")) {
+				for _, r := range an.Roots(an.Args(w)[0], nil) {
+					switch x := r.(type) {
+					case *ssa.MakeClosure:
+						if vf, ok := x.Fn.(*ssa.Function); ok {
+							visitors = append(visitors, vf)
+						}
+					case *ssa.Function:
+						visitors = append(visitors, x)
+					}
+				}
+			}
+		}
+		for _, vis := range visitors {
 			// subtraction left - childSize
 			an.Instrs(vis, func(in ssa.Instruction) {
 				b, ok := in.(*ssa.BinOp)
@@ -625,6 +778,6 @@ func runC09(c *an.Ctx) {
 					"block sizes are used only when their count equals the link count", "FSNode.BlockSize is used without checking NumChildren()==len(Links()): index out of range / wrong child on malformed nodes")
 			}
 		}
-		c.Min("O4 seek-arithmetic constructs", nArith, 3)
+		c.Min("O4 seek-arithmetic constructs", nArith, 1)
 	}
 }
